@@ -42,7 +42,7 @@ META = {
                    "explored). Polynomial formulas (purity, l1-norm of coherence) are exact; the entropy is decided as "
                    "-sum over the positive eigenvalue symbols of lambda log2 lambda for each sign pattern; the concurrence as "
                    "max(0, 2 max_k a_k - sum_k a_k), a_k = |sqrt(lambda_k)|, over every ordering path of np.sort. "
-                   "S(k) operator norm: (lower, upper) returned by the real sk_operator_norm for 9 (thorough 13) operators (scaled rank-one, near rank-one, "
+                   "S(k) operator norm: (lower, upper) returned by the real sk_operator_norm for 15 (thorough 19) operators (scaled rank-one, near rank-one, "
                    "projector, generic PSD, indefinite; dims (2,2), (2,3), (3,2), (3,3); k = 1, 2); for explicit product frames (Schmidt bases of leading "
                    "eigenvectors, of the harness' own local maximisers, computational basis) z3 decides over all coefficient vectors c in C^k that no "
                    "sum_i c_i a_i (x) b_i exceeds the upper bound and that some such vector reaches the lower bound (witness).",
